@@ -7,7 +7,7 @@ import ast
 import networkx as nx
 
 from ..cfg import CFG
-from ..facts import calls_in, field_writes
+from ..facts import calls_in, field_writes, is_self_call
 from ..index import FuncInfo, dotted_of, norm, own_nodes, text
 
 PROPERTY = "C09"
@@ -148,6 +148,44 @@ def rule_r1_r2(ctx):
             ctx.check("R2", f"{f.local}: notify_all() after every counter write, inside the critical section", ok, f, f.node,
                       "a counter is changed without waking the waiters on every path: a blocked acquire() can sleep forever",
                       how="every path write → exit passes notify_all(); notify is under the condition")
+
+
+def rule_budget_passed(ctx):
+    """Every tensor write of the writer is accounted against the budget it was configured with: the budget argument of
+    self._write_tensor(...) is self._budget, a freshly built _ByteBudget, or a choice between those - never a value that a
+    local condition can turn into None (which would exempt some tensors from the in-flight bound)."""
+    wc = ctx.repo.cls(f"{ED}:_ExternalDataWriter")
+    wt = wc.methods.get("_write_tensor")
+    ctx.require(wt is not None and "budget" in wt.params, "_ExternalDataWriter._write_tensor(budget) not found")
+    bi = wt.params.index("budget") - 1
+    n = 0
+    for f in list(wc.methods.values()) + [g for m in wc.methods.values() for g in m.nested.values()]:
+        host = f if f.parent is None else f.parent
+        for c in calls_in(f):
+            if not is_self_call(c, "_write_tensor"):
+                continue
+            arg = c.args[bi] if bi < len(c.args) else next((k.value for k in c.keywords if k.arg == "budget"), None)
+            n += 1
+
+            def alternatives(e, depth=0):
+                if isinstance(e, ast.IfExp):
+                    return alternatives(e.body, depth) + alternatives(e.orelse, depth)
+                if isinstance(e, ast.BoolOp):
+                    return [x for v in e.values for x in alternatives(v, depth)]
+                if isinstance(e, ast.Name) and depth < 3:
+                    defs = [a.value for scope in (f, host) for a in own_nodes(scope.node) if isinstance(a, ast.Assign)
+                            and any(isinstance(t, ast.Name) and t.id == e.id for t in a.targets)]
+                    return [x for d in defs for x in alternatives(d, depth + 1)] if defs else [e]
+                return [e]
+
+            alts = alternatives(arg) if arg is not None else []
+            bad = [a for a in alts if isinstance(a, ast.Constant) and a.value is None]
+            ctx.check("R2", f"{f.local}: _write_tensor(… budget={norm(arg) if arg is not None else '?'}) always carries the configured budget", bool(alts) and not bad, f, c,
+                      f"the budget handed to the tensor write can be None by a local decision (`{norm(arg) if arg is not None else ''}`): those tensors are "
+                      "materialised outside the shared in-flight bound, so several workers can hold more bytes than budget + largest tensor",
+                      how="alternatives of the budget argument through locals: self._budget / _ByteBudget(...) only, no literal None",
+                      construct="budget argument can be None")
+    ctx.require(n >= 2, "_write_tensor call sites not found")
 
 
 def rule_r3(ctx):
@@ -441,6 +479,7 @@ def run(ctx):
     _collect_lock_names(ctx)
     ctx.tables["lock names (by construction)"] = sorted(_LOCK_NAMES)
     rule_r1_r2(ctx)
+    rule_budget_passed(ctx)
     rule_r3(ctx)
     rule_r4(ctx)
     rule_r5(ctx)
